@@ -6,12 +6,16 @@ C18 — Fail-stop: truncated or missing files raise, never yield a wrong tree.
   `n` line records.  (In the second case the row coordinates are shorter than the declared image shape and
   the `xarray.Dataset` constructor rejects the group — third-party contract, exercised end-to-end.)
 * `complete_image` — conversely a complete well-formed file yields exactly `n` records (no false alarm).
+* `missing_files` — whole-product model: a failing summary step is the product's error, then the volume directory, the leader and
+  the image files are consulted in this order and the first missing one is a FileNotFoundError; `trailer_never_read` — the
+  result does not depend on the file with the trailer role at all.
 * `truncated_record`/`complete_record` (layout level, see `Proofs/Layout.lean`): a record layout read from
   fewer bytes than it consumes raises `StreamError`.
 -/
 import Alos2.Proofs.ImageIO
 import Alos2.Proofs.ProductOpen
 import Alos2.Proofs.FailStop
+import Alos2.Proofs.MissingFiles
 
 namespace Alos2.C18
 
@@ -62,5 +66,38 @@ theorem cut_file_never_complete (file : Bytes) (rpc : Nat) (header : Val) (recs 
     (hty : ∀ r ∈ recs, intAt r ["preamble", "record_type"] = .ok (t : Int))
     (hshort : file.length < 720 + n * L) : recs.length < n :=
   truncated_never_complete file rpc header recs h n L hL hn hdrn hdrL t hrl hty hshort
+
+/-- EVERY MISSING FILE THE READER USES (whole-product model; `summaryRoles` = the summary steps of `io.open`): a failing summary
+    step is the product's error; after it the volume directory, the leader and the image files are consulted in this order, and
+    the first one that is missing turns into FileNotFoundError -/
+theorem missing_files (fs : Files) (rpc : Nat) :
+    (∀ e, summaryRoles fs = .error e → openProduct fs rpc = .error e) ∧
+    (∀ sm vol led trl imgs, summaryRoles fs = .ok (sm, (vol, led, imgs, trl)) →
+      (fs.get vol = none → openProduct fs rpc = .error .fnf) ∧
+      (∀ vb vrec va, fs.get vol = some vb → parseRecord Gen.volumeDirectoryRecord vb = .ok vrec →
+        transformVolumeRecord realLeafFns vrec.toPVal = some va →
+        (fs.get led = none → openProduct fs rpc = .error .fnf) ∧
+        (∀ lb lrec md, fs.get led = some lb → parseRecord Gen.sarLeaderRecord lb = .ok lrec →
+          transformLeaderMetadata realLeafFns3 lrec.toPVal = some md →
+          ∀ before name after, imgs = before ++ name :: after →
+            (∀ n ∈ before, ∃ b g, fs.get n = some b ∧ openImageFile b n rpc = .ok g) →
+            fs.get name = none → openProduct fs rpc = .error .fnf))) :=
+  ⟨fun e h => openProduct_summary_error fs rpc e h,
+   fun sm vol led trl imgs h =>
+    ⟨fun hm => openProduct_missing_volume fs rpc sm vol led trl imgs h hm,
+     fun vb vrec va hv hvp hva =>
+      ⟨fun hm => openProduct_missing_leader fs rpc sm vol led trl imgs h vb hv vrec hvp va hva hm,
+       fun lb lrec md hl hlp hmd before name after himgs hb hm =>
+        openProduct_missing_image fs rpc sm vol led trl imgs h vb hv vrec hvp va hva lb hl lrec hlp md hmd before name after
+          himgs hb hm⟩⟩⟩
+
+/-- "the trailer is never read": two product directories that agree on every file except the one the summary gives the trailer
+    role open to the same result — whether that file is present, absent, truncated or garbage -/
+theorem trailer_never_read (fs fs' : Files) (rpc : Nat) (sm : List (String × SGroup)) (vol led trl : String) (imgs : List String)
+    (h : summaryRoles fs = .ok (sm, (vol, led, imgs, trl)))
+    (hsame : ∀ n, n ≠ trl → fs.get n = fs'.get n)
+    (hdistinct : trl ≠ "summary.txt" ∧ trl ≠ vol ∧ trl ≠ led ∧ trl ∉ imgs) :
+    openProduct fs' rpc = openProduct fs rpc :=
+  openProduct_trailer_never_read fs fs' rpc sm vol led trl imgs h hsame hdistinct
 
 end Alos2.C18
